@@ -41,8 +41,8 @@ type c15Witness struct {
 type permRes struct{}
 
 func (permRes) GetTemplate(ctx context.Context, s string) (string, error) { return "", nil }
-func (permRes) GetCode(ctx context.Context, s string) ([]byte, error)    { return []byte{}, nil }
-func (permRes) GetMenu(ctx context.Context, s string) (string, error)    { return s, nil }
+func (permRes) GetCode(ctx context.Context, s string) ([]byte, error)     { return []byte{}, nil }
+func (permRes) GetMenu(ctx context.Context, s string) (string, error)     { return s, nil }
 func (permRes) FuncFor(ctx context.Context, s string) (resource.EntryFunc, error) {
 	return func(ctx context.Context, sym string, in []byte) (resource.Result, error) {
 		return resource.Result{Content: "x"}, nil
